@@ -18,7 +18,6 @@ Depth == atoi(IOEnv.GEN_DEPTH)
 Full  == IOEnv.MENU = "full"
 Want(m) == IOEnv.GEN_MODE = "all" \/ IOEnv.GEN_MODE = m
 Extra == IF IOEnv.EXTRA_CASES = "none" THEN <<>> ELSE ndJsonDeserialize(IOEnv.EXTRA_CASES)
-FileDevices == ndJsonDeserialize(IOEnv.C03_DEVICES)          \* Devices <- FileDevices (RotGen.cfg)
 
 \* ---------------------------------------------------------------- menus
 ClsOf(rot) == CASE rot = "cert_block_1" -> RsaClasses [] rot = "cert_block_21" -> {"p256", "p384"}
